@@ -114,11 +114,40 @@ def run(ctx):
         if idx % 3 == 0 or not ctx.quick:
             put = [('SEQ', (PUSH(OPT(UNIT), some(U)), PUSH(t, v), ('UPDATEK',))) for v in vs]
             fams['map%d' % idx] = dict(depth=nv, maxstack=2, inits=[(S(MAP(t, UNIT), ('map', ())),)], alphabet=put)
-    C01.run_families(ctx, 'C03', 'order', fams)
+    r = C01.run_families(ctx, 'C03', 'order', fams)
+    # literals of two keys: accepted iff the model's Cmp says strictly increasing (ordered and deduplicated by the same relation)
+    from ..tlaparse import iter_dump
+    from .C14 import literal_accepted
+    nlit = 0
+    for st in iter_dump(r.dump):
+        if st['fam'] != 'compare' or len(st['hist']) != 1 or st['status'] != 'running':
+            continue
+        (t, a), (_, b_) = st['init']
+        cmpv = st['stack'][0][1][1]
+        if t in (UNIT,) or (ctx.quick and nlit > 1500):
+            continue
+        for kind, ct in (('set', SET(t)), ('map', MAP(t, UNIT)), ('big_map', ('big_map', t, UNIT))):
+            got = literal_accepted(t, ct, (a, b_), 'set' if kind == 'set' else 'map')
+            nlit += 1
+            ctx.count(('lit', kind, t, a, b_), nontrivial=True)
+            if got != (cmpv == -1):
+                cls = 'unsorted-or-duplicate-literal-accepted' if got else 'sorted-literal-rejected'
+                ctx.mismatch('C03:literal:%s:%s' % (kind, cls), '%s literal {%s ; %s} of key type %s: model Cmp = %d, pytezos %s' % (kind, a, b_, t, cmpv, 'accepts' if got else 'rejects'),
+                             {'family': 'literal', 'kind': kind, 'type': t, 'a': a, 'b': b_, 'cmp': cmpv})
+    ctx.replayed += nlit
     ctx.exhaustive = True
 
 
 def replay(ctx, rep):
+    c = rep['case']
+    if c.get('family') == 'literal':
+        from .C14 import literal_accepted
+        tup = lambda x: tuple(tup(y) for y in x) if isinstance(x, list) else x
+        t, a, b_ = tup(c['type']), tup(c['a']), tup(c['b'])
+        ct = SET(t) if c['kind'] == 'set' else (c['kind'], t, UNIT)
+        got = literal_accepted(t, ct, (a, b_), 'set' if c['kind'] == 'set' else 'map')
+        print('pytezos', 'accepts' if got else 'rejects', '; model Cmp', c['cmp'])
+        return 0 if got == (c['cmp'] == -1) else 1
     return C01.replay(ctx, rep)
 
 
